@@ -6,15 +6,17 @@ def main(tier, args):
                    plain_srcs=[vf.VERIF + "/engine/sched/log_stub.cpp"])
     quick = tier == "quick"
     # depth per sub-harness: the cabinet space grows fastest (every alloc adds a token that is kept forever, x3.7 per level with the full alphabet)
-    dc, dp, df, dl = (9, 14, 8, 45) if quick else (11, 20, 10, 1200)
+    dc, dp, df, dl = (9, 12, 8, 45) if quick else (11, 18, 10, 1200)
     nparts = 6 if quick else 12
     # cabinet configurations: (name, config argument, depth, processes)
     #   plain    full alphabet (entries with and without object), fresh cabinet
     #   wrap     same, the id counter starts two below its maximum, so it wraps after two allocations
     #   reserveN same, reserve(N) before the first op
+    #   reserve-mid  same, the spare capacity of the cell vector (capped at 3) is part of the state key: ops AFTER a mid-history reserve are explored
     #   basic    the alphabet without object-less entries (a much smaller space), searched deeper (thorough tier only)
     cab = [("cabinet", "plain", dc, nparts), ("cabinet-wrap", "wrap", dc - 1, 2 if quick else 6),
-           ("cabinet-reserve1", "reserve1", dc - 2, 1), ("cabinet-reserve4", "reserve4", dc - 2, 1)]
+           ("cabinet-reserve1", "reserve1", dc - 2, 1), ("cabinet-reserve4", "reserve4", dc - 2, 1),
+           ("cabinet-reserve-mid", "reserve-mid", dc - 2, 1 if quick else 4)]
     if not quick:
         cab.append(("cabinet-basic", "basic", 13, 12))
     cmds = []
@@ -22,10 +24,11 @@ def main(tier, args):
         cmds += [("%s/%d" % (name, k), [exe, "cabinet", str(d), "%d/%d" % (k, n), cfg]) for k in range(n)]
     probes = ("probe16", "small1", "odd17", "wide40")
     cmds += [("pool-%s/keep%s" % (p, k), [exe, "pool", str(dp), k, p]) for p in probes for k in ("0", "1", "2", "max")]
-    fdcfg = ("cf", "sys") if quick else ("cf", "sys", "cf:4:3", "sys:4:3")
+    # fd lanes: cf / sys / cfnull (empty CloseFunc given to the two-argument constructor); ":fail" = the ::close seam answers -1 (EINTR, EIO in turn)
+    fdcfg = ("cf", "sys", "cfnull", "sys:fail", "cf:fail") if quick else ("cf", "sys", "cfnull", "sys:fail", "cf:fail", "cfnull:fail", "cf:4:3", "sys:4:3", "sys:fail:4:3")
     cmds += [("fd/%s" % m, [exe, "fd", str(df), m]) for m in fdcfg]
     # first four: one of each kind (their @SAMPLE lines are the ones kept in the evidence) and the longest-running ones
-    first = ["cabinet/0", "pool-probe16/keepmax", "fd/" + fdcfg[-1], "cabinet-wrap/0"]
+    first = ["cabinet/0", "pool-probe16/keepmax", "fd/sys:fail", "cabinet-wrap/0"]
     cmds.sort(key=lambda c: first.index(c[0]) if c[0] in first else len(first))
     only = getattr(args, "only", None)
     if only:
